@@ -560,8 +560,8 @@ def run(ctx):
     levels = {}
     if flags_mod is not None:
         for nm_, v_ in flags_mod.assigns.items():
-            if isinstance(v_, ast.Constant) and isinstance(v_.value, int) and nm_ in ("NORMAL", "VERBOSE", "VERY_VERBOSE", "DEBUG"):
-                levels[nm_] = v_.value
+            if nm_ in ("NORMAL", "VERBOSE", "VERY_VERBOSE", "DEBUG") and q.const_int(v_) is not None:
+                levels[nm_] = q.const_int(v_)
     ctx.require(len(levels) >= 3, "verbosity level constants not found in clikit.api.io.flags")
     top = max(levels, key=lambda k: levels[k])
     for nm_, m in sorted(out18.methods.items()):
@@ -571,14 +571,20 @@ def run(ctx):
         rets = q.returns(m)
         ok_ = False
         got = None
+        MIRROR = {ast.LtE: ast.GtE, ast.Lt: ast.Gt, ast.GtE: ast.LtE, ast.Gt: ast.Lt, ast.Eq: ast.Eq, ast.NotEq: ast.NotEq}
         for ret in rets:
             v = ret.value
-            if isinstance(v, ast.Compare) and len(v.ops) == 1 and is_self_attr(v.left) and isinstance(v.comparators[0], ast.Name):
-                got = (type(v.ops[0]).__name__, v.comparators[0].id)
-                if v.comparators[0].id == want and (isinstance(v.ops[0], ast.GtE) or (isinstance(v.ops[0], ast.Eq) and want == top)):
+            if isinstance(v, ast.Compare) and len(v.ops) == 1:
+                lhs, op, rhs = v.left, type(v.ops[0]), v.comparators[0]
+                if isinstance(lhs, ast.Name) and is_self_attr(rhs):
+                    lhs, rhs, op = rhs, lhs, MIRROR.get(op, op)  # LEVEL <= self._verbosity
+                if not (is_self_attr(lhs) and isinstance(rhs, ast.Name)):
+                    continue
+                got = (op.__name__, rhs.id)
+                if rhs.id == want and (op is ast.GtE or (op is ast.Eq and want == top)):
                     ok_ = True
-                elif isinstance(v.ops[0], ast.Gt) and levels.get(v.comparators[0].id) == levels[want] - 1:
-                    ok_ = True
+                elif op is ast.Gt and rhs.id in levels and sorted(levels.values()).index(levels[rhs.id]) + 1 == sorted(levels.values()).index(levels[want]):
+                    ok_ = True  # `> <the level just below>`
         if ok_:
             r.ok("Output.%s: threshold at %s" % (nm_, want))
         else:
